@@ -265,7 +265,7 @@ impl C18 {
 impl Monitor for C18 {
     fn run_case(&mut self, idx: u64, obs: &mut Obs) {
         let mut rng = Rng::for_case("C18", self.seed, idx);
-        let len = (idx % 301) as usize;
+        let len = if small() { (idx % 29) as usize } else { (idx % 301) as usize };
         let data: Vec<u8> = match (idx / 301) % NCLASS {
             0 => rng.bytes(len),
             1 => vec![0u8; len],
